@@ -67,6 +67,12 @@ def token_oracle(res, prop="C01", strict_headers=True):
                     where = "body"
             elif not exp.startswith(got):
                 where = "body-prefix"
+        if where == "status" and out["status"] == 408 and _idle_408_race(w, tok, out):
+            # the server's unsolicited idle time-out notice (408) crossed a request that
+            # was already on its way: the premise 'one response per request' does not hold
+            # for this exchange, and nothing told the client when it looked at the socket
+            w.probes["idle_408_crossed_request"] += 1
+            continue
         if where is not None:
             echoed = dict((k.lower(), v) for k, v in out.get("headers", []))
             other = echoed.get(b"x-echo-token")
@@ -76,6 +82,27 @@ def token_oracle(res, prop="C01", strict_headers=True):
                        "got_headers": out.get("headers"), "echo": other,
                        "body_len": len(out.get("body", b"")),
                        "exp_len": len(expected_body(plan, tok))})
+
+
+def _idle_408_race(w, tok, out):
+    """True iff the 408 this request received is the server's idle time-out notice and the
+    client polled the idle socket for this very reuse - finding nothing - before the
+    notice existed."""
+    if any(k.lower() == b"x-echo-token" for k, v in out.get("headers", [])):
+        return False
+    led = w.ledger
+    sends = [e for e in led.of("c2s") if e[6] == tok]
+    if not sends:
+        return False
+    wid, seq_send = sends[0][3], sends[0][0]
+    closes = [e for e in led.of("srv_idle_close") if e[3] == wid]
+    if not closes:
+        return False
+    t_nom = closes[0][4]
+    prev = max([e[0] for e in led.of("c2s") if e[3] == wid and e[0] < seq_send and e[6] != tok],
+               default=-1)
+    return any(e[3] == wid and e[4] is False and prev < e[0] < seq_send and e[1] < t_nom
+               for e in led.of("poll"))
 
 
 def exchange_order_oracle(res, prop="C01"):
